@@ -143,7 +143,12 @@ def run(ctx):
             gets = [(bi, t) for bi, t in f.body.calls() if t.callee.name == "get" and t.args and not depmod.has_param(fa.operand_deps(t.args[0]), 9) or
                     (t.callee.name == "get" and t.args and depmod.has_param(fa.operand_deps(t.args[0]), 2))]
             g = ctx.guards(f)
-            vr = [(bi, t) for bi, t in f.body.calls() if t.callee.name == "get" and Mentions(Var("verify_prng"))(g.eb.operand(t.args[0]))]
+            def _from_init_prng(op):
+                e = g.eb.operand(op)
+                if e[0] == "phi":
+                    e = g.eb.init_expr(e[1]) or e
+                return Mentions(Call("init_prng"))(e)
+            vr = [(bi, t) for bi, t in f.body.calls() if t.callee.name == "get" and t.args and _from_init_prng(t.args[0])]
             if not vr:
                 ctx.bad(rule, rule + ":verify-rand", "cannot find the draw from the verification-randomness stream", kind="anchor")
             for bi, t in vr[:1]:
